@@ -1,5 +1,6 @@
 import CharsetProof.Lemmas.CharsLe
 import CharsetProof.Lemmas.CharsLeNow
+import CharsetProof.Lemmas.CjkEvents
 import CharsetProof.Lemmas.Utf8
 import CharsetProof.Props.C17
 import CharsetProof.Props.C17b
@@ -11,6 +12,8 @@ open Charset
 #print axioms supportedModelled
 #print axioms codec_strict_le
 #print axioms Cjk.strictOf_le
+#print axioms Cjk.events_strict
+#print axioms Cjk.eventsOf_strict
 #print axioms C17_test_only
 #print axioms C17_chunk_mode_irrelevant
 #print axioms C17_chunk_mode_single_byte
